@@ -34,11 +34,31 @@ OP_ADD, OP_ADDS, OP_REM, OP_REMS, OP_ORIENT, OP_CTOR, OP_ORIENTLAG = range(7)   
 OP_ADD_ATTR, OP_ADDS_ATTR, OP_UPD_LIST, OP_UPD_LIST_NODES, OP_UPD_NODES, OP_UPD_GRAPH = range(7, 13)
 MODEL_OP = {OP_ADD_ATTR: OP_ADD, OP_ADDS_ATTR: OP_ADDS, OP_UPD_LIST: OP_ADDS, OP_UPD_LIST_NODES: OP_ADDS, OP_UPD_GRAPH: OP_ADDS}
 UPD_OPS = (OP_UPD_LIST, OP_UPD_LIST_NODES, OP_UPD_NODES, OP_UPD_GRAPH)
+# ARGUMENT SPELLINGS.  [OP_SPELL, spelling, base] with base an ADD / ADDS / REM / REMS op (edge type never "all"):
+#   "kw"      every argument by keyword (names taken from the method's own signature)      -> exactly the base op
+#   "enum"    edge_type given as the pywhy_graphs.config.EdgeType member                    -> EITHER
+#   "kwenum"  both                                                                          -> EITHER
+#   "tuple3"  bulk ops: every edge as (u, v, {attribute dict})                              -> EITHER
+#   "none"    edge_type=None                                                                -> must raise, graph unchanged
+# EITHER (also OP_UPD_GRAPH) = the call raises and leaves the FULL snapshot unchanged, or it behaves exactly as the base op with
+# the plain string (guards included); such an op is always the LAST op of its history.  An accepted spelling that by-passes a
+# guard differs from the model's guarded base op and is reported.
+# [OP_QUERY, u, v, et]: has_edge in every spelling (string / keyword / enum / no edge type); must agree with each other (the enum
+# form may raise instead), and must not change the graph.
+OP_SPELL, OP_QUERY = 13, 14
+EITHER_SPELLINGS = ("enum", "kwenum", "tuple3")
+BASE_METHOD = {OP_ADD: "add_edge", OP_ADDS: "add_edges_from", OP_REM: "remove_edge", OP_REMS: "remove_edges_from"}
+
+
+def is_either(o):
+    return o[0] == OP_UPD_GRAPH or (o[0] == OP_SPELL and o[1] in EITHER_SPELLINGS)
 
 
 def model_op(o):
-    if o[0] == OP_UPD_NODES:
+    if o[0] in (OP_UPD_NODES, OP_QUERY) or (o[0] == OP_SPELL and o[1] == "none"):
         return [OP_REMS, [], 0]
+    if o[0] == OP_SPELL:
+        return model_op(o[2])
     return [MODEL_OP.get(o[0], o[0])] + list(o[1:])
 
 RULE = ("histories of add_edge / add_edges_from (1-3 elements, also self-conflicting) / remove_edge / remove_edges_from / "
@@ -49,7 +69,11 @@ RULE = ("histories of add_edge / add_edges_from (1-3 elements, also self-conflic
         "tuple|one-shot iterator|dict-keys, nodes=..., edge_type=...) = guarded bulk add, update(nodes=...) = no edge change, "
         "update(edges=<networkx graph>) as last op: accepted = raises with unchanged edge sets or the guarded insertion, never a "
         "contradictory graph, and after any raise the FULL snapshot (node set included) equals the pre-state; a stream with "
-        "identity-hashed label objects. Alias stream: two objects built from the SAME constructor argument objects (networkx graph per layer / "
+        "identity-hashed label objects. Argument spellings of add_edge / add_edges_from / remove_edge / remove_edges_from after every "
+        "single-op prefix: all-keyword (names from the method's signature) = exactly the positional op; EdgeType enum member, "
+        "keyword+enum, (u, v, {attrs}) 3-tuples in bulk ops = EITHER rejected with the full snapshot unchanged OR exactly the "
+        "guarded op with the plain string; edge_type=None must raise with the snapshot unchanged; has_edge in string / keyword / "
+        "enum / untyped spelling must agree and not change the graph. Alias stream: two objects built from the SAME constructor argument objects (networkx graph per layer / "
         "dict-of-dicts / edge lists), ops on either, both objects and the argument objects observed after every op; bulk list "
         "arguments snapshotted; explicitly empty and duplicate-element batches. Plus the generated-table case: 640+640 guard cells, 4x128 orient cells, 80 lagged-pair orient cells "
         "(both argument orders w.r.t. time), 5x64 mec cells.")
@@ -141,6 +165,10 @@ def random_op(rng, cls, n):
         return [a, b + (b >= a)]
     r = rng.random()
     et = rng.choice(ets[:-1]) if rng.random() < 0.985 else ets[-1]
+    if et != 4 and rng.random() < 0.06:
+        return [OP_QUERY] + pair() + [et]
+    if et != 4 and rng.random() < 0.06:
+        return [OP_SPELL, "kw", rng.choice([[OP_ADD] + pair() + [et], [OP_REM] + pair() + [et], [OP_ADDS, [pair(), pair()], et]])]
     if r < 0.40:
         if et != 4 and rng.random() < 0.2:
             return [OP_ADD_ATTR] + pair() + [et]
@@ -199,6 +227,19 @@ def gen_cases(tier, rng):
             for fin in finals:
                 n += 1
                 yield {"kind": "update", "cls": cls, "ops": pr + [fin], "cont": ["list", "tuple", "iter", "dictkeys"][n % 4]}
+    # ARGUMENT SPELLINGS of every guarded entry point (see OP_SPELL / OP_QUERY), after every single-op prefix
+    for cls in range(5):
+        pre = [[]] + [[o] for o in alphabet(cls, [0, 1], bulk_max=1) if o[0] in (OP_ADD, OP_ORIENT) and o[-1] != 4]
+        finals = []
+        for et in et_codes(cls)[:-1]:
+            singles = [[k, a, b, et] for k in (OP_ADD, OP_REM) for (a, b) in ((0, 1), (1, 0))]
+            bulks = [[k, es, et] for k in (OP_ADDS, OP_REMS) for es in ([[0, 1]], [[0, 1], [1, 0]], [[1, 0], [1, 2]])]
+            finals += [[OP_SPELL, sp, b] for b in singles for sp in ("kw", "enum", "kwenum", "none")]
+            finals += [[OP_SPELL, sp, b] for b in bulks for sp in ("kw", "enum", "kwenum", "tuple3", "none")]
+            finals += [[OP_QUERY, 0, 1, et], [OP_QUERY, 1, 0, et]]
+        for pr in pre:
+            for fin in finals:
+                yield {"kind": "spell", "cls": cls, "ops": pr + [fin]}
     # identity-hashed label objects (the bulk add validates on self.copy(): a copy that re-creates labels would split nodes)
     for cls in range(5):
         for _ in range(30 if tier == "quick" else 200):
@@ -394,6 +435,12 @@ def apply_op(G, cls, nd, o):
                  edge_type=ET_NAMES[o[2]])
     elif k == OP_UPD_NODES:
         G.update(nodes=container([nd(v) for v in range(2)]))
+    elif k == OP_SPELL:
+        spelled_call(G, nd, o[1], o[2])
+    elif k == OP_QUERY:
+        bad = query_spellings(G, nd, o[1], o[2], ET_NAMES[o[3]])
+        if bad:
+            _ARG_MUTATED.append("has_edge:" + bad)
     elif k == OP_UPD_GRAPH:
         import networkx as nx
         H = (nx.DiGraph if o[2] in (0, 3) else nx.Graph)([(nd(a), nd(b)) for a, b in o[1]])
@@ -401,6 +448,48 @@ def apply_op(G, cls, nd, o):
     elif k == OP_CTOR:
         return construct(cls, nd, o[1], o[2], o[3], o[4])
     return G
+
+
+def spelled_call(G, nd, spelling, base):
+    import inspect
+    from pywhy_graphs.config import EdgeType
+    name = ET_NAMES[base[-1]]
+    et = EdgeType(name) if spelling in ("enum", "kwenum") else None if spelling == "none" else name
+    f = getattr(G, BASE_METHOD[base[0]])
+    if base[0] in (OP_ADD, OP_REM):
+        args = [nd(base[1]), nd(base[2]), et]
+    else:
+        es = [(nd(a), nd(b)) for a, b in base[1]]
+        if spelling == "tuple3":
+            es = [(a, b, {"weight": 1}) for a, b in es]
+        args = [es, et]
+    if spelling in ("kw", "kwenum"):
+        names = [n for n, p in inspect.signature(f).parameters.items() if p.kind == p.POSITIONAL_OR_KEYWORD][:len(args)]
+        return f(**dict(zip(names, args)))
+    return f(*args)
+
+
+def query_spellings(G, nd, u, v, name):
+    """has_edge(u, v, edge_type) spelled four ways; returns a description of the first inconsistency or None"""
+    import inspect
+    from pywhy_graphs.config import EdgeType
+    u, v = nd(u), nd(v)
+    before = gr.snapshot(G)
+    ref = bool(G.has_edge(u, v, name))
+    names = [n for n, p in inspect.signature(G.has_edge).parameters.items() if p.kind == p.POSITIONAL_OR_KEYWORD][:3]
+    if bool(G.has_edge(**dict(zip(names, [u, v, name])))) != ref:
+        return "keyword form differs"
+    try:
+        if bool(G.has_edge(u, v, EdgeType(name))) != ref:
+            return "enum form differs"
+    except Exception:  # noqa   (HEAD: ValueError)
+        pass
+    anyl = any(bool(G.has_edge(u, v, n)) for n in G.edge_types)
+    if bool(G.has_edge(u, v)) != anyl:
+        return "untyped form differs from the layers"
+    if gr.snapshot(G) != before:
+        return "query changed the graph"
+    return None
 
 
 def run_history(case):
@@ -719,31 +808,39 @@ def compare(case, impl, model, ignore_inv=False):
     broken = False
     for i, (a, m, o) in enumerate(zip(impl["steps"], model["steps"], case["ops"])):
         if a.get("argmut"):
-            return "argument-mutated"
+            return "has_edge-spelling" if o[0] == OP_QUERY else "argument-mutated"
         if not a["inv"] and not ignore_inv:
             return "invariant-broken"
         # (classification only) once a contradictory state exists, a raise half-way through orient_uncertain_edge is a
         # consequence of it; the as-is model must still reproduce the resulting edge sets exactly
         # every entry point, update() included: a raise must leave the FULL snapshot (nodes, every layer, attributes) as it was
         if a["raised"] and not a.get("atomic", True) and not (ignore_inv and broken):
-            return "update-raise-not-atomic" if o[0] in UPD_OPS else "raise-not-atomic"
+            return "update-raise-not-atomic" if o[0] in UPD_OPS else "spelling-raise-not-atomic" if o[0] == OP_SPELL \
+                else "raise-not-atomic"
         broken = broken or not a["inv"]
-        if o[0] == OP_UPD_GRAPH and a["raised"]:
-            # accepted outcome 1: raises (on HEAD: the Graph-like branch is unsupported) and leaves every edge set as it was
+        if is_either(o) and a["raised"]:
+            # accepted outcome 1: the call is rejected (HEAD: unsupported form) and leaves the graph as it was (full snapshot
+            # checked above); outcome 2 (below): exactly the guarded base op
             prev = impl["steps"][i - 1] if i else {"D": [], "B": [], "U": [], "C": []}
             if any(a[k] != prev[k] for k in "DBUC"):
-                return "update-graph-raise-not-atomic"
+                return "either-raise-not-atomic"
             if i != len(case["ops"]) - 1:
-                return "harness-update-graph-not-last"
+                return "harness-either-op-not-last"
             continue
+        if o[0] == OP_SPELL and o[1] == "none" and not a["raised"]:
+            return "edge_type-None-accepted"
         for k in "DBUC":
             if a[k] != m[k]:
                 return "edges"
         if o[0] == OP_UPD_NODES and a["raised"]:
             return "raised"
-        if o[0] not in (OP_REM, OP_REMS, OP_UPD_NODES) and a["raised"] != m["raised"]:
+        base = o[2][0] if o[0] == OP_SPELL else o[0]
+        if o[0] == OP_QUERY and a["raised"]:
             return "raised"
-        if a["raised"] and a["exc"] not in ("RuntimeError", "NetworkXError"):
+        if base not in (OP_REM, OP_REMS, OP_UPD_NODES, OP_QUERY) and not (o[0] == OP_SPELL and o[1] == "none") \
+                and a["raised"] != m["raised"]:
+            return "raised"
+        if a["raised"] and a["exc"] not in ("RuntimeError", "NetworkXError") and not (o[0] == OP_SPELL and o[1] == "none"):
             return "exception-class"
         if a["mec"] != m["mec"]:
             return "is_valid_mec_graph"
